@@ -473,3 +473,1187 @@ Proof.
   induction l as [|x r IH]; simpl; [tauto|]. destruct r as [|y r']; [tauto|].
   intros [[-> ->]|H]; [simpl; auto|]. destruct (IH H). split; right; auto.
 Qed.
+
+(* ================================================================== running leaves the wiring alone *)
+(* everything that running never touches: the three tables, labels, data edges, flags, parent kind,
+   starting nodes, automate *)
+Definition cframe (a b : scope) : Prop :=
+  (forall r s, conns_in b r s = conns_in a r s) /\ (forall e, c_ran b e = c_ran a e) /\
+  (forall i, lbl b i = lbl a i) /\ (forall i, ups b i = ups a i) /\
+  (forall i, exe b i = exe a i) /\ (forall i, bad b i = bad a i) /\
+  par b = par a /\ starting b = starting a /\ automate b = automate a.
+
+Lemma cframe_refl a : cframe a a.
+Proof. unfold cframe; repeat split; auto. Qed.
+Lemma cframe_trans a b c : cframe a b -> cframe b c -> cframe a c.
+Proof.
+  unfold cframe. intros (A1&A2&A3&A4&A5&A6&A7&A8&A9) (B1&B2&B3&B4&B5&B6&B7&B8&B9).
+  repeat split; intros; congruence.
+Qed.
+Lemma cframe_mark_failed sc k : cframe sc (mark_failed sc k).
+Proof. unfold cframe, mark_failed; repeat split; intros; try reflexivity; destruct s; reflexivity. Qed.
+Lemma cframe_set_recv sc f : cframe sc (set_recv sc f).
+Proof. unfold cframe; repeat split; intros; try reflexivity; destruct s; reflexivity. Qed.
+Lemma cframe_set_pfailed sc b : cframe sc (set_pfailed sc b).
+Proof. unfold cframe; repeat split; intros; try reflexivity; destruct s; reflexivity. Qed.
+
+Lemma cframe_acc_deliver sc r e sc' go : acc_deliver sc r e = (sc', go) -> cframe sc sc'.
+Proof.
+  unfold acc_deliver. destruct (forallb _ _); intros H; inversion H; subst; apply cframe_set_recv.
+Qed.
+
+Definition emit_ok (emit : scope -> nat -> scope * list entry * res) : Prop :=
+  forall sc k sc' l x, emit sc k = (sc', l, x) -> cframe sc sc'.
+
+Lemma run_with_cframe emit lv : emit_ok emit -> emit_ok (run_with emit lv).
+Proof.
+  intros He sc r sc' l x. unfold run_with. destruct (failed sc r).
+  - intros H; inversion H; subst; apply cframe_refl.
+  - destruct (bad sc r).
+    + intros H; inversion H; subst; apply cframe_mark_failed.
+    + destruct (emit sc r) as [[sc1 l1] x1] eqn:Q. intros H; inversion H; subst. eapply He; eauto.
+Qed.
+
+Lemma deliver_all_cframe runf e : emit_ok runf ->
+  forall conns sc sc' l x, deliver_all runf e conns sc = (sc', l, x) -> cframe sc sc'.
+Proof.
+  intros Hr. induction conns as [|[r s] rest IH]; intros sc sc' l x; simpl.
+  - intros H; inversion H; subst; apply cframe_refl.
+  - destruct (match s with IRun => (sc, true) | IAcc => acc_deliver sc r e end) as [sc1 go] eqn:Q.
+    assert (C1 : cframe sc sc1).
+    { destruct s; [inversion Q; subst; apply cframe_refl|eapply cframe_acc_deliver; eauto]. }
+    destruct go.
+    + destruct (runf sc1 r) as [[sc2 l2] x2] eqn:Q2. assert (C2 := Hr _ _ _ _ _ Q2). destruct x2.
+      * destruct (deliver_all runf e rest sc2) as [[sc3 l3] x3] eqn:Q3. intros H; inversion H; subst.
+        eapply cframe_trans; [exact C1|]. eapply cframe_trans; [exact C2|]. eapply IH; eauto.
+      * intros H; inversion H; subst. eapply cframe_trans; eauto.
+    + intros H. eapply cframe_trans; [exact C1|]. eapply IH; eauto.
+Qed.
+
+Lemma emit_dfs_cframe fuel lv : emit_ok (emit_dfs fuel lv).
+Proof.
+  induction fuel as [|f IH]; intros sc k sc' l x; simpl.
+  - intros H; inversion H; subst; apply cframe_refl.
+  - intros H. eapply deliver_all_cframe; [|exact H]. apply run_with_cframe. exact IH.
+Qed.
+
+Lemma run_dfs_cframe fuel lv : emit_ok (run_dfs fuel lv).
+Proof. unfold run_dfs. apply run_with_cframe. apply emit_dfs_cframe. Qed.
+
+Lemma run_q_cframe lv sc r sc' l q x : run_q lv sc r = (sc', l, q, x) -> cframe sc sc'.
+Proof.
+  unfold run_q. destruct (failed sc r); [intros H; inversion H; subst; apply cframe_refl|].
+  destruct (bad sc r); intros H; inversion H; subst; [apply cframe_mark_failed|apply cframe_refl].
+Qed.
+
+Lemma queue_loop_cframe fuel lv : forall sc q errs sc' l x,
+  queue_loop fuel lv sc q errs = (sc', l, x) -> cframe sc sc'.
+Proof.
+  induction fuel as [|f IH]; intros sc q errs sc' l x; destruct q as [|[e [r s]] rest]; simpl;
+    try (intros H; inversion H; subst; apply cframe_refl).
+  destruct (match s with IRun => (sc, true) | IAcc => acc_deliver sc r e end) as [sc1 go] eqn:Q.
+  assert (C1 : cframe sc sc1).
+  { destruct s; [inversion Q; subst; apply cframe_refl|eapply cframe_acc_deliver; eauto]. }
+  destruct go.
+  - destruct (run_q lv sc1 r) as [[[sc2 l2] q2] x2] eqn:Q2.
+    destruct (queue_loop f lv sc2 (rest ++ q2) _) as [[sc3 l3] x3] eqn:Q3.
+    intros H; inversion H; subst.
+    eapply cframe_trans; [exact C1|]. eapply cframe_trans; [eapply run_q_cframe; eauto|]. eapply IH; eauto.
+  - intros H. eapply cframe_trans; [exact C1|]. eapply IH; eauto.
+Qed.
+
+Lemma run_starters_cframe lv st : forall sc sc' l q x,
+  run_starters lv sc st = (sc', l, q, x) -> cframe sc sc'.
+Proof.
+  induction st as [|s rest IH]; intros sc sc' l q x; simpl.
+  - intros H; inversion H; subst; apply cframe_refl.
+  - destruct (run_q lv sc s) as [[[sc1 l1] q1] x1] eqn:Q1. assert (C1 := run_q_cframe _ _ _ _ _ _ _ Q1).
+    destruct x1.
+    + destruct (run_starters lv sc1 rest) as [[[sc2 l2] q2] x2] eqn:Q2. intros H; inversion H; subst.
+      eapply cframe_trans; [exact C1|]. eapply IH; eauto.
+    + intros H; inversion H; subst. exact C1.
+Qed.
+
+Lemma run_children_cframe fuel lv sc sc' l x : run_children fuel lv sc = (sc', l, x) -> cframe sc sc'.
+Proof.
+  unfold run_children. destruct (run_starters lv sc (starting sc)) as [[[sc1 l1] q1] x1] eqn:Q1.
+  assert (C1 := run_starters_cframe _ _ _ _ _ _ _ Q1). destruct x1.
+  - destruct (queue_loop fuel lv sc1 q1 false) as [[sc2 l2] x2] eqn:Q2. intros H; inversion H; subst.
+    eapply cframe_trans; [exact C1|]. eapply queue_loop_cframe; eauto.
+  - intros H; inversion H; subst. exact C1.
+Qed.
+
+Definition upper_cframe (a b : upper) : Prop :=
+  match a, b with
+  | Some (u, pk), Some (u', pk') => pk' = pk /\ cframe u u'
+  | None, None => True
+  | _, _ => False
+  end.
+Lemma upper_cframe_refl a : upper_cframe a a.
+Proof. destruct a as [[u pk]|]; simpl; auto. split; auto. apply cframe_refl. Qed.
+
+Lemma run_parent_cframe fuel lv sc up sc' up' l x :
+  run_parent fuel lv sc up = (sc', up', l, x) -> cframe sc sc' /\ upper_cframe up up'.
+Proof.
+  unfold run_parent.
+  destruct (match par sc, up with
+            | PMacro, Some (usc, pk) => failed usc pk | PWf, _ => pfailed sc | _, _ => false end).
+  - intros H; inversion H; subst. split; [apply cframe_refl|apply upper_cframe_refl].
+  - destruct (run_children fuel lv sc) as [[sc1 l1] x1] eqn:Q1. assert (C1 := run_children_cframe _ _ _ _ _ _ Q1).
+    destruct x1.
+    + destruct (par sc); [| |destruct up as [[usc pk]|]];
+        try (intros H; inversion H; subst; split; [exact C1|apply upper_cframe_refl]).
+      destruct (emit_dfs fuel (S lv) usc pk) as [[usc1 l2] x2] eqn:Q2. intros H; inversion H; subst.
+      split; [exact C1|]. simpl. split; auto. eapply emit_dfs_cframe; eauto.
+    + destruct (par sc); [| |destruct up as [[usc pk]|]]; intros H; inversion H; subst.
+      * split; [exact C1|apply upper_cframe_refl].
+      * split; [|apply upper_cframe_refl]. eapply cframe_trans; [exact C1|apply cframe_set_pfailed].
+      * split; [exact C1|]. simpl. split; auto. apply cframe_mark_failed.
+      * split; [exact C1|apply upper_cframe_refl].
+Qed.
+
+(* ================================================================== closure *)
+Inductive reach (up : nat -> list nat) : nat -> nat -> Prop :=
+| reach_refl k : reach up k k
+| reach_step k u x : In u (up k) -> reach up u x -> reach up k x.
+
+Lemma add_new_In x y l : In x (add_new y l) <-> x = y \/ In x l.
+Proof.
+  unfold add_new. destruct (memn y l) eqn:M.
+  - apply memn_In in M. split; auto. intros [->|?]; auto.
+  - rewrite in_app_iff. simpl. split; intros [?|?]; auto. destruct H; auto. contradiction.
+Qed.
+Lemma add_new_nodup y l : NoDup l -> NoDup (add_new y l).
+Proof.
+  unfold add_new. destruct (memn y l) eqn:M; auto. apply memn_false in M. intros H.
+  eapply Permutation_NoDup; [apply Permutation_cons_append|]. constructor; auto.
+Qed.
+
+Lemma union_spec b : forall a, (forall x, In x (union a b) <-> In x a \/ In x b) /\ (NoDup a -> NoDup (union a b)).
+Proof.
+  unfold union. induction b as [|y r IH]; intros a; simpl.
+  - split; [intros; tauto|auto].
+  - destruct (IH (add_new y a)) as [I1 I2]. split.
+    + intros x. rewrite I1, add_new_In. split; intros; intuition auto.
+    + intros Ha. apply I2. apply add_new_nodup. exact Ha.
+Qed.
+
+Definition cl_step (f : nat) (up : nat -> list nat) (acc : option (list nat)) (u : nat) :=
+  match acc with
+  | None => None
+  | Some a => match closure f up u with None => None | Some b => Some (union a b) end
+  end.
+
+Lemma cl_fold_none f up l : fold_left (cl_step f up) l None = None.
+Proof. induction l; simpl; auto. Qed.
+
+Lemma cl_fold_some f up l : forall a D, fold_left (cl_step f up) l (Some a) = Some D ->
+  (forall u, In u l -> exists b, closure f up u = Some b) /\
+  (forall x, In x D <-> In x a \/ exists u b, In u l /\ closure f up u = Some b /\ In x b) /\
+  (NoDup a -> NoDup D).
+Proof.
+  induction l as [|u r IH]; intros a D; simpl.
+  - intros H; inversion H; subst. split; [intros ? []|]. split; auto.
+    intros x. split; auto. intros [?|(?&?&[]&_)]; auto.
+  - destruct (closure f up u) as [b|] eqn:Q; [|rewrite cl_fold_none; discriminate].
+    intros H. destruct (IH _ _ H) as (I1 & I2 & I3). destruct (union_spec b a) as [U1 U2]. split.
+    + intros v [<-|Hv]; eauto.
+    + split.
+      * intros x. rewrite I2, U1. split.
+        -- intros [[?|?]|(v&c&?&?&?)]; auto.
+           ++ right. exists u, b. auto.
+           ++ right. exists v, c. auto.
+        -- intros [?|(v&c&[<-|?]&Hc&?)]; auto.
+           ++ rewrite Q in Hc. inversion Hc; subst. auto.
+           ++ right. exists v, c. auto.
+      * intros Ha. auto.
+Qed.
+
+Lemma closure_unfold f up k :
+  closure (S f) up k = fold_left (cl_step f up) (up k) (Some [k]).
+Proof. reflexivity. Qed.
+
+Lemma closure_sound fuel up : forall k D, closure fuel up k = Some D ->
+  (forall x, In x D <-> reach up k x) /\ NoDup D.
+Proof.
+  induction fuel as [|f IH]; intros k D; [discriminate|].
+  rewrite closure_unfold. intros H. destruct (cl_fold_some _ _ _ _ _ H) as (I1 & I2 & I3). split.
+  - intros x. rewrite I2. split.
+    + intros [[<-|[]]|(u&b&Hu&Hb&Hx)]; [constructor|].
+      econstructor; [exact Hu|]. apply (IH _ _ Hb). exact Hx.
+    + intros R. inversion R; subst; [left; left; auto|]. right.
+      destruct (I1 _ H0) as [b Hb]. exists u, b. repeat split; auto. apply (IH _ _ Hb). assumption.
+  - apply I3. constructor; [simpl; tauto|constructor].
+Qed.
+
+(* cyclic data reachable from the target is always refused: no amount of recursion depth helps *)
+Lemma closure_some_down fuel up : forall k D u, closure (S fuel) up k = Some D -> In u (up k) ->
+  exists b, closure fuel up u = Some b.
+Proof. intros k D u. rewrite closure_unfold. intros H Hu. apply (cl_fold_some _ _ _ _ _ H). exact Hu. Qed.
+
+Lemma closure_mono fuel up : forall k D, closure fuel up k = Some D -> exists D', closure (S fuel) up k = Some D'.
+Proof.
+  induction fuel as [|f IH]; intros k D; [discriminate|].
+  rewrite (closure_unfold (S f)), closure_unfold.
+  assert (G : forall l a D, fold_left (cl_step f up) l (Some a) = Some D ->
+                            forall a', exists D', fold_left (cl_step (S f) up) l (Some a') = Some D').
+  { induction l as [|u r IHl]; intros a D0; cbn [fold_left]; [eauto|].
+    change (cl_step f up (Some a) u) with (match closure f up u with None => None | Some b => Some (union a b) end).
+    destruct (closure f up u) as [b|] eqn:Q; [|rewrite cl_fold_none; discriminate].
+    intros H a'. destruct (IH _ _ Q) as [b' Hb'].
+    assert (R : cl_step (S f) up (Some a') u = Some (union a' b')).
+    { cbv beta iota delta [cl_step]. rewrite Hb'. reflexivity. }
+    rewrite R. eapply IHl; eauto. }
+  intros H. eapply G; eauto.
+Qed.
+
+Lemma closure_reach_some fuel up : forall k D x, closure fuel up k = Some D -> reach up k x ->
+  exists f' b, f' <= fuel /\ closure f' up x = Some b.
+Proof.
+  intros k D x H R. revert fuel D H. induction R as [k|k u x Hu R IH]; intros fuel D H.
+  - exists fuel, D. auto.
+  - destruct fuel as [|f]; [discriminate|]. destruct (closure_some_down _ _ _ _ _ H Hu) as [b Hb].
+    destruct (IH _ _ Hb) as (f' & b' & Hle & Hb'). exists f', b'. split; auto.
+Qed.
+
+Lemma closure_cycle_refused up u : (exists v, In v (up u) /\ reach up v u) ->
+  forall fuel, closure fuel up u = None.
+Proof.
+  intros (v & Hv & R) fuel. induction fuel as [fuel IH] using lt_wf_ind.
+  destruct (closure fuel up u) as [D|] eqn:Q; auto. exfalso.
+  destruct fuel as [|f]; [discriminate|].
+  destruct (closure_some_down _ _ _ _ _ Q Hv) as [b Hb].
+  destruct (closure_reach_some _ _ _ _ _ Hb R) as (f' & b' & Hle & Hb').
+  rewrite (IH f') in Hb'; [discriminate|lia].
+Qed.
+
+(* ================================================================== the linear order *)
+Lemma insert_by_perm le x l : Permutation (insert_by le x l) (x :: l).
+Proof.
+  induction l as [|y r IH]; simpl; auto. destruct (le x y); auto.
+  eapply perm_trans; [apply perm_skip; exact IH|apply perm_swap].
+Qed.
+Lemma sort_by_perm le l : Permutation (sort_by le l) l.
+Proof.
+  unfold sort_by. induction l as [|x r IH]; simpl; auto.
+  eapply perm_trans; [apply insert_by_perm|]. apply perm_skip. exact IH.
+Qed.
+
+Lemma filter_split_perm {A} (p : A -> bool) l :
+  Permutation (filter p l ++ filter (fun x => negb (p x)) l) l.
+Proof.
+  induction l as [|x r IH]; simpl; auto. destruct (p x); simpl.
+  - apply perm_skip. exact IH.
+  - eapply perm_trans; [apply Permutation_sym; apply Permutation_middle|]. apply perm_skip. exact IH.
+Qed.
+
+Lemma layers_perm fuel up le : forall rem o, layers fuel up le rem = Some o -> Permutation o rem.
+Proof.
+  induction fuel as [|f IH]; intros rem o; destruct rem as [|r0 rem']; simpl;
+    try (intros H; inversion H; subst; constructor); try discriminate.
+  set (rem := r0 :: rem'). fold rem.
+  set (p := fun v => negb (existsb (fun u => memn u rem) (up v))).
+  change (match filter p rem with
+          | [] => None
+          | _ => match layers f up le (filter (fun v => negb (memn v (filter p rem))) rem) with
+                 | None => None | Some o0 => Some (sort_by le (filter p rem) ++ o0) end
+          end = Some o -> Permutation o rem).
+  destruct (filter p rem) as [|a ready'] eqn:Qr; [discriminate|]. rewrite <- Qr.
+  destruct (layers f up le _) as [o'|] eqn:Q; [|discriminate]. intros H; inversion H; subst; clear H.
+  apply IH in Q.
+  assert (Fe : filter (fun v => negb (memn v (filter p rem))) rem = filter (fun v => negb (p v)) rem).
+  { apply filter_ext_in. intros v Hv. f_equal. destruct (p v) eqn:Pv.
+    - apply memn_In. apply filter_In. auto.
+    - apply memn_false. rewrite filter_In. intros [_ ?]; congruence. }
+  rewrite Fe in Q.
+  eapply perm_trans; [|apply (filter_split_perm p rem)].
+  apply Permutation_app; [apply sort_by_perm|exact Q].
+Qed.
+
+(* every node comes after all its upstream nodes: [done] = what came before *)
+Fixpoint topo (up : nat -> list nat) (done l : list nat) : Prop :=
+  match l with
+  | [] => True
+  | v :: r => (forall u, In u (up v) -> In u done) /\ topo up (v :: done) r
+  end.
+
+Lemma topo_mono up l : forall d d', (forall x, In x d -> In x d') -> topo up d l -> topo up d' l.
+Proof.
+  induction l as [|v r IH]; simpl; auto. intros d d' Hs [H1 H2]. split; auto.
+  eapply IH; [|exact H2]. simpl. intros x [?|?]; auto.
+Qed.
+
+Lemma topo_app up a : forall d b, (forall v, In v a -> forall u, In u (up v) -> In u d) ->
+  topo up (a ++ d) b -> topo up d (a ++ b).
+Proof.
+  induction a as [|v r IH]; intros d b Ha Hb; simpl; auto. split; [apply Ha; left; auto|].
+  apply IH.
+  - intros w Hw u Hu. right. eapply Ha; [right; exact Hw|exact Hu].
+  - eapply topo_mono; [|exact Hb]. intros x. simpl. rewrite !in_app_iff. simpl. tauto.
+Qed.
+
+Lemma topo_prefix up a : forall d b, topo up d (a ++ b) -> topo up d a.
+Proof. induction a as [|v r IH]; simpl; auto. intros d b [H1 H2]. split; auto. eapply IH; eauto. Qed.
+
+Lemma layers_topo fuel up le : forall rem o d, layers fuel up le rem = Some o ->
+  (forall v, In v rem -> forall u, In u (up v) -> In u rem \/ In u d) -> topo up d o.
+Proof.
+  induction fuel as [|f IH]; intros rem o d; destruct rem as [|r0 rem']; simpl;
+    try (intros H; inversion H; subst; simpl; auto; fail); try discriminate.
+  set (rem := r0 :: rem'). fold rem.
+  set (p := fun v => negb (existsb (fun u => memn u rem) (up v))).
+  change (match filter p rem with
+          | [] => None
+          | _ => match layers f up le (filter (fun v => negb (memn v (filter p rem))) rem) with
+                 | None => None | Some o0 => Some (sort_by le (filter p rem) ++ o0) end
+          end = Some o -> (forall v, In v rem -> forall u, In u (up v) -> In u rem \/ In u d) -> topo up d o).
+  destruct (filter p rem) as [|a ready'] eqn:Qr; [discriminate|]. rewrite <- Qr.
+  destruct (layers f up le _) as [o'|] eqn:Q; [|discriminate]. intros H Hc; inversion H; subst; clear H.
+  assert (Hready : forall v, In v (filter p rem) -> forall u, In u (up v) -> In u d).
+  { intros v Hv u Hu. apply filter_In in Hv. destruct Hv as [Hv Pv].
+    destruct (Hc v Hv u Hu) as [Hr|?]; auto. exfalso. unfold p in Pv.
+    apply negb_true_iff in Pv. assert (existsb (fun u0 => memn u0 rem) (up v) = true); [|congruence].
+    apply existsb_exists. exists u. split; auto. apply memn_In. exact Hr. }
+  apply topo_app.
+  - intros v Hv. apply Hready. eapply Permutation_in; [apply sort_by_perm|exact Hv].
+  - eapply IH; [exact Q|]. intros v Hv u Hu. apply filter_In in Hv. destruct Hv as [Hv Nv].
+    destruct (Hc v Hv u Hu) as [Hr|Hd]; [|right; apply in_app_iff; auto].
+    destruct (memn u (filter p rem)) eqn:Mu.
+    + right. apply in_app_iff. left. apply memn_In in Mu.
+      eapply Permutation_in; [apply Permutation_sym; apply sort_by_perm|exact Mu].
+    + left. apply filter_In. split; auto. rewrite Mu. reflexivity.
+Qed.
+
+Definition closed_under (up : nat -> list nat) (d : list nat) : Prop :=
+  forall v x, In v d -> reach up v x -> In x d.
+
+Lemma topo_reach up l : forall d, topo up d l -> closed_under up d -> closed_under up (l ++ d).
+Proof.
+  induction l as [|w r IH]; intros d Ht Hc; simpl; auto. destruct Ht as [H1 H2].
+  assert (Hc' : closed_under up (w :: d)).
+  { intros v x [<-|Hv] R.
+    - inversion R; subst; [left; auto|]. right. eapply Hc; [apply H1; eassumption|assumption].
+    - right. eapply Hc; eauto. }
+  specialize (IH _ H2 Hc'). intros v x Hv R.
+  assert (In x (r ++ w :: d)).
+  { eapply IH; [|exact R]. apply in_app_iff. simpl. destruct Hv as [<-|Hv]; [right; left; auto|].
+    apply in_app_iff in Hv. destruct Hv; [left|right; right]; auto. }
+  apply in_app_iff in H. simpl in H. simpl. rewrite in_app_iff. tauto.
+Qed.
+
+(* the target is the last element of any topological enumeration of its closure *)
+Lemma topo_target_last up k order :
+  NoDup order -> topo up [] order -> (forall x, In x order <-> reach up k x) ->
+  exists l, order = l ++ [k].
+Proof.
+  intros Hn Ht Hr.
+  assert (Hk : In k order) by (apply Hr; constructor).
+  destruct (exists_last (l := order)) as (l & z & ->); [intros ->; contradiction|].
+  exists l. f_equal. f_equal.
+  destruct (Nat.eq_dec z k) as [|Hne]; auto. exfalso.
+  apply in_app_iff in Hk. destruct Hk as [Hk|[?|[]]]; [|congruence].
+  assert (Hz : reach up k z) by (apply Hr; apply in_app_iff; right; left; auto).
+  assert (C : closed_under up (l ++ [])).
+  { apply topo_reach; [eapply topo_prefix; eauto|intros ? ? []]. }
+  rewrite app_nil_r in C. specialize (C k z Hk Hz).
+  apply NoDup_remove_2 in Hn. rewrite app_nil_r in Hn. contradiction.
+Qed.
+
+(* ================================================================== restoration, one scope *)
+Definition rframe (a b : scope) : Prop :=
+  (forall r s, conns_in b r s = conns_in a r s) /\ (forall e, c_ran b e = c_ran a e) /\
+  (forall i, lbl b i = lbl a i) /\ (forall i, ups b i = ups a i) /\
+  (forall i, exe b i = exe a i) /\ (forall i, bad b i = bad a i) /\ par b = par a.
+
+Lemma rframe_refl a : rframe a a.
+Proof. unfold rframe; repeat split; auto. Qed.
+Lemma rframe_trans a b c : rframe a b -> rframe b c -> rframe a c.
+Proof.
+  unfold rframe. intros (A1&A2&A3&A4&A5&A6&A7) (B1&B2&B3&B4&B5&B6&B7). repeat split; intros; congruence.
+Qed.
+Lemma cframe_rframe a b : cframe a b -> rframe a b.
+Proof. unfold cframe, rframe. intros (A1&A2&A3&A4&A5&A6&A7&A8&A9). repeat split; auto. Qed.
+Lemma rframe_set_starting sc l : rframe sc (set_starting sc l).
+Proof. unfold rframe; repeat split; intros; try reflexivity; destruct s; reflexivity. Qed.
+Lemma rframe_set_automate sc b : rframe sc (set_automate sc b).
+Proof. unfold rframe; repeat split; intros; try reflexivity; destruct s; reflexivity. Qed.
+
+Lemma WF_tables a b : (forall r s, conns_in b r s = conns_in a r s) -> (forall e, c_ran b e = c_ran a e) ->
+  WF a -> WF b.
+Proof.
+  intros H1 H2 W. constructor.
+  - intros e r s. rewrite H1, H2. apply (wf_sym a W).
+  - intros r s. rewrite H1. apply (wf_nd_in a W).
+  - intros e. rewrite H2. apply (wf_nd_out a W).
+Qed.
+Lemma rframe_WF a b : rframe a b -> WF a -> WF b.
+Proof. intros (A1&A2&_). apply WF_tables; auto. Qed.
+Lemma rframe_E a b : rframe a b -> forall e r s, E b e r s <-> E a e r s.
+Proof. intros (A1&_) e r s. unfold E. rewrite A1. tauto. Qed.
+
+Lemma tables_set_lbl sc f : (forall r s, conns_in (set_lbl sc f) r s = conns_in sc r s) /\
+                            (forall e, c_ran (set_lbl sc f) e = c_ran sc e).
+Proof. split; intros; reflexivity. Qed.
+
+Definition same_graph (a b : scope) : Prop :=
+  (forall i, lbl b i = lbl a i) /\ starting b = starting a /\
+  (forall r s e, In e (conns_in b r s) <-> In e (conns_in a r s)) /\
+  (forall e t, In t (c_ran b e) <-> In t (c_ran a e)) /\ WF b /\
+  (forall i, ups b i = ups a i) /\ par b = par a /\
+  (forall i, exe b i = exe a i) /\ (forall i, bad b i = bad a i).
+
+Lemma same_graph_of_E a b : WF a -> WF b -> (forall e r s, E b e r s <-> E a e r s) ->
+  (forall i, lbl b i = lbl a i) -> starting b = starting a -> (forall i, ups b i = ups a i) -> par b = par a ->
+  (forall i, exe b i = exe a i) -> (forall i, bad b i = bad a i) -> same_graph a b.
+Proof.
+  intros Wa Wb HE. unfold same_graph. intros Hl Hs Hu Hp Hx Hb.
+  refine (conj Hl (conj Hs (conj _ (conj _ (conj Wb (conj Hu (conj Hp (conj Hx Hb)))))))).
+  - intros r s e. apply HE.
+  - intros e [r s]. rewrite <- (wf_sym b Wb), <- (wf_sym a Wa). apply HE.
+Qed.
+
+Lemma same_graph_refl a : WF a -> same_graph a a.
+Proof. intros W. apply same_graph_of_E; auto. intros; tauto. Qed.
+
+Lemma same_graph_trans a b c : same_graph a b -> same_graph b c -> same_graph a c.
+Proof.
+  unfold same_graph. intros (A1&A2&A3&A4&A5&A6&A7&A8&A9) (B1&B2&B3&B4&B5&B6&B7&B8&B9).
+  refine (conj _ (conj _ (conj _ (conj _ (conj B5 (conj _ (conj _ (conj _ _)))))))); intros; try congruence.
+  - rewrite B3. apply A3.
+  - rewrite B4. apply A4.
+Qed.
+
+Lemma cframe_same_graph a b : WF a -> cframe a b -> same_graph a b.
+Proof.
+  intros W C. assert (R := cframe_rframe _ _ C). destruct C as (C1&C2&C3&C4&C5&C6&C7&C8&C9).
+  apply same_graph_of_E; auto.
+  - eapply rframe_WF; eauto.
+  - apply rframe_E; auto.
+Qed.
+
+Lemma closure_self fuel up k D : closure fuel up k = Some D -> In k D.
+Proof. intros H. apply (closure_sound _ _ _ _ H). constructor. Qed.
+
+Lemma linear_order_perm sc D order : linear_order sc D = Some order -> Permutation order D.
+Proof. unfold linear_order. destruct (self_dep sc D); [discriminate|]. apply layers_perm. Qed.
+
+Lemma in_dec_nat (x : nat) l : In x l \/ ~ In x l.
+Proof. destruct (in_dec Nat.eq_dec x l); auto. Qed.
+
+Lemma relabel_restore sc D j :
+  (if memn j D then lbl sc j else lbl (relabel sc D) j) = lbl sc j.
+Proof. unfold relabel; simpl. destruct (memn j D); reflexivity. Qed.
+
+(* what the `finally:` clause achieves, given what is known about the state it starts from *)
+Lemma finally_restore_spec sc sc1 sc4 D pairs saved :
+  WF sc -> WF sc1 -> WF sc4 ->
+  (forall e r s, E sc1 e r s <-> E sc e r s) ->
+  (forall e r s, (exists b, In (b, e, (r, s)) pairs) <-> E sc1 e r s /\ (In r D \/ In e D)) ->
+  (forall e r s, E sc4 e r s -> ~ In r D -> E sc1 e r s /\ ~ In e D) ->
+  (forall e r s, E sc1 e r s -> ~ In r D -> ~ In e D -> E sc4 e r s) ->
+  (forall i, lbl sc4 i = lbl (relabel sc D) i) ->
+  (forall i, ups sc4 i = ups sc i) -> (forall i, exe sc4 i = exe sc i) -> (forall i, bad sc4 i = bad sc i) ->
+  par sc4 = par sc -> saved = starting sc -> (par sc = PNone -> starting sc4 = starting sc) ->
+  same_graph sc (finally_restore sc4 D (lbl sc) pairs saved).
+Proof.
+  intros W W1 W4 HE1 HP H4a H4b Hl Hu Hx Hb Hp Hs Hs0. unfold finally_restore.
+  set (sc5 := restore_labels sc4 D (lbl sc)).
+  assert (W5 : WF sc5) by (eapply WF_tables; [apply tables_set_lbl|apply tables_set_lbl|exact W4]).
+  destruct (disconnect_run_all_spec D sc5 W5) as (W6 & F6 & E6).
+  set (sc6 := disconnect_run_all sc5 D) in *.
+  destruct (reconnect_all_spec pairs sc6 W6) as (W7 & F7 & E7).
+  set (sc7 := reconnect_all sc6 pairs) in *.
+  assert (F57 : frame sc5 sc7) by (eapply frame_trans; eauto).
+  destruct F57 as (G1&G2&G3&G4&G5&G6&G7&G8&G9&G10).
+  assert (HE7 : forall e r s, E sc7 e r s <-> E sc e r s).
+  { intros e r s. rewrite E7, E6, HP. change (E sc5 e r s) with (E sc4 e r s). rewrite <- HE1. split.
+    - intros [[Ha Hb']|[Ha _]]; auto. apply (H4a _ _ _ Ha Hb').
+    - intros Ha. destruct (in_dec_nat r D) as [Hr|Hr]; [right; auto|].
+      destruct (in_dec_nat e D) as [He|He]; [right; auto|]. left. split; auto. }
+  assert (Hl7 : forall i, lbl sc7 i = lbl sc i).
+  { intros i. rewrite G1. unfold sc5, restore_labels. simpl. rewrite Hl. apply relabel_restore. }
+  assert (Hp7 : par sc7 = par sc) by (rewrite G7; exact Hp).
+  assert (Hu7 : forall i, ups sc7 i = ups sc i) by (intros i; exact (eq_trans (G2 i) (Hu i))).
+  assert (Hx7 : forall i, exe sc7 i = exe sc i) by (intros i; exact (eq_trans (G4 i) (Hx i))).
+  assert (Hb7 : forall i, bad sc7 i = bad sc i) by (intros i; exact (eq_trans (G5 i) (Hb i))).
+  destruct (par sc7) eqn:P7.
+  - apply same_graph_of_E; auto; try congruence.
+    rewrite G8. apply Hs0. congruence.
+  - apply same_graph_of_E; auto; try (simpl; congruence).
+    eapply WF_tables; [| |exact W7]; intros; reflexivity.
+  - apply same_graph_of_E; auto; try (simpl; congruence).
+    eapply WF_tables; [| |exact W7]; intros; reflexivity.
+Qed.
+
+Lemma run_upstream_spec fuel lv sc3 k first up sc4 up4 l4 x4 : WF sc3 ->
+  run_upstream fuel lv sc3 k first up = (sc4, up4, l4, x4) ->
+  WF sc4 /\ (forall e r s, E sc4 e r s -> E sc3 e r s) /\
+  (forall e r s, E sc3 e r s -> r <> k -> E sc4 e r s) /\
+  (forall i, lbl sc4 i = lbl sc3 i) /\ (forall i, ups sc4 i = ups sc3 i) /\
+  (forall i, exe sc4 i = exe sc3 i) /\ (forall i, bad sc4 i = bad sc3 i) /\ par sc4 = par sc3 /\
+  (par sc3 = PNone -> starting sc4 = starting sc3) /\ upper_cframe up up4.
+Proof.
+  intros W3. unfold run_upstream. destruct (Nat.eqb first k).
+  - intros H; inversion H; subst. split; [exact W3|]. repeat split; auto. apply upper_cframe_refl.
+  - destruct (disconnect_run sc3 k) as [sc3' pk] eqn:Dk. simpl fst.
+    destruct (disconnect_run_spec _ _ _ _ W3 Dk) as (W3' & F3' & E3' & _).
+    destruct F3' as (G1&G2&G3&G4&G5&G6&G7&G8&G9&G10).
+    assert (Main : forall sc4, rframe sc3' sc4 ->
+      WF sc4 /\ (forall e r s, E sc4 e r s -> E sc3 e r s) /\
+      (forall e r s, E sc3 e r s -> r <> k -> E sc4 e r s) /\
+      (forall i, lbl sc4 i = lbl sc3 i) /\ (forall i, ups sc4 i = ups sc3 i) /\
+      (forall i, exe sc4 i = exe sc3 i) /\ (forall i, bad sc4 i = bad sc3 i) /\ par sc4 = par sc3).
+    { intros s4 R. assert (RE := rframe_E _ _ R). assert (RW := rframe_WF _ _ R W3').
+      destruct R as (R1&R2&R3&R4&R5&R6&R7).
+      refine (conj RW (conj _ (conj _ (conj _ (conj _ (conj _ (conj _ _))))))); intros; try congruence.
+      - apply RE, E3' in H. tauto.
+      - apply RE, E3'. auto. }
+    destruct (par sc3') eqn:P3.
+    + destruct (run_dfs fuel lv sc3' first) as [[a b] c] eqn:Q. intros H; inversion H; subst.
+      assert (C := run_dfs_cframe _ _ _ _ _ _ _ Q).
+      destruct (Main _ (cframe_rframe _ _ C)) as (M1&M2&M3&M4&M5&M6&M7&M8).
+      refine (conj M1 (conj M2 (conj M3 (conj M4 (conj M5 (conj M6 (conj M7 (conj M8 (conj _ _))))))))).
+      * intros _. destruct C as (_&_&_&_&_&_&_&C8&_). congruence.
+      * apply upper_cframe_refl.
+    + destruct (run_parent fuel lv _ up) as [[[a u] b] c] eqn:Q. intros H; inversion H; subst.
+      destruct (run_parent_cframe _ _ _ _ _ _ _ _ Q) as [C U].
+      assert (R : rframe sc3' (match x4 with Ok => set_automate a (automate sc3') | Err _ => a end)).
+      { eapply rframe_trans; [apply rframe_set_automate|]. eapply rframe_trans; [apply rframe_set_starting|].
+        eapply rframe_trans; [apply cframe_rframe; exact C|]. destruct x4; [apply rframe_set_automate|apply rframe_refl]. }
+      destruct (Main _ R) as (M1&M2&M3&M4&M5&M6&M7&M8).
+      refine (conj M1 (conj M2 (conj M3 (conj M4 (conj M5 (conj M6 (conj M7 (conj M8 (conj _ U))))))))).
+      intros. congruence.
+    + intros Q. destruct (run_parent_cframe _ _ _ _ _ _ _ _ Q) as [C U].
+      assert (R : rframe sc3' sc4).
+      { eapply rframe_trans; [apply rframe_set_starting|]. apply cframe_rframe; exact C. }
+      destruct (Main _ R) as (M1&M2&M3&M4&M5&M6&M7&M8).
+      refine (conj M1 (conj M2 (conj M3 (conj M4 (conj M5 (conj M6 (conj M7 (conj M8 (conj _ U))))))))).
+      intros. congruence.
+Qed.
+
+Lemma level_pull_restores fuel lv sc k up sc' up' l x : WF sc ->
+  level_pull fuel lv sc k up = (sc', up', l, x) -> same_graph sc sc' /\ upper_cframe up up'.
+Proof.
+  intros W. unfold level_pull.
+  destruct (closure fuel (ups sc) k) as [D|] eqn:C;
+    [|intros H; inversion H; subst; split; [apply same_graph_refl; auto|apply upper_cframe_refl]].
+  destruct (existsb (exe sc) D);
+    [intros H; inversion H; subst; split; [apply same_graph_refl; auto|apply upper_cframe_refl]|].
+  assert (Hk : In k D) by (eapply closure_self; eauto).
+  set (sc1 := relabel sc D).
+  assert (W1 : WF sc1) by (eapply WF_tables; [apply tables_set_lbl|apply tables_set_lbl|exact W]).
+  assert (HE1 : forall e r s, E sc1 e r s <-> E sc e r s) by (intros; tauto).
+  destruct (wrap_disconnect sc1 D) as [sc2 pairs] eqn:Wd.
+  destruct (wrap_disconnect_spec _ _ _ _ W1 Wd) as (W2 & F2 & E2 & P2).
+  destruct F2 as (G1&G2&G3&G4&G5&G6&G7&G8&G9&G10).
+  destruct (linear_order sc2 D) as [order|] eqn:Lo.
+  - assert (Po := linear_order_perm _ _ _ Lo).
+    destruct (chain_spec order sc2 W2) as (W3 & F3 & E3).
+    set (sc3 := chain sc2 order) in *.
+    destruct F3 as (K1&K2&K3&K4&K5&K6&K7&K8&K9&K10).
+    destruct (run_upstream fuel lv sc3 k (hd k order) up) as [[[sc4 up4] l4] x4] eqn:Ru.
+    intros H; inversion H; subst; clear H.
+    destruct (run_upstream_spec _ _ _ _ _ _ _ _ _ _ W3 Ru) as (W4&M2&M3&M4&M5&M6&M7&M8&M9&U).
+    split; [|exact U].
+    apply (finally_restore_spec sc sc1 sc4 D pairs (starting sc3) W W1 W4 HE1 P2).
+    + intros e r s H4 Hr. apply M2, E3 in H4. destruct H4 as [H4|[_ Hc]].
+      * apply E2 in H4. tauto.
+      * exfalso. apply Hr. apply consec_In in Hc. eapply Permutation_in; [exact Po|tauto].
+    + intros e r s H1 Hr He. apply M3; [|intros ->; contradiction]. apply E3. left. apply E2. auto.
+    + intros i. rewrite M4, K1, G1. reflexivity.
+    + intros i. rewrite M5, K2, G2. reflexivity.
+    + intros i. rewrite M6, K4, G4. reflexivity.
+    + intros i. rewrite M7, K5, G5. reflexivity.
+    + rewrite M8, K7, G7. reflexivity.
+    + rewrite K8, G8. reflexivity.
+    + intros Hp. rewrite M9; [rewrite K8, G8; reflexivity|]. rewrite K7, G7. exact Hp.
+  - intros H; inversion H; subst; clear H. split; [|apply upper_cframe_refl].
+    destruct (reconnect_all_spec pairs sc2 W2) as (W7 & F7 & E7).
+    destruct F7 as (K1&K2&K3&K4&K5&K6&K7&K8&K9&K10).
+    apply same_graph_of_E; auto.
+    + eapply WF_tables; [apply tables_set_lbl|apply tables_set_lbl|exact W7].
+    + intros e r s. change (E (restore_labels (reconnect_all sc2 pairs) D (lbl sc)) e r s)
+        with (E (reconnect_all sc2 pairs) e r s). rewrite E7, E2, P2, HE1.
+      destruct (in_dec_nat r D); destruct (in_dec_nat e D); tauto.
+    + intros i. simpl. rewrite K1, G1. apply relabel_restore.
+    + simpl. rewrite K8, G8. reflexivity.
+    + intros i. simpl. rewrite K2, G2. reflexivity.
+    + simpl. rewrite K7, G7. reflexivity.
+    + intros i. simpl. rewrite K4, G4. reflexivity.
+    + intros i. simpl. rewrite K5, G5. reflexivity.
+Qed.
+
+(* ================================================================== restoration, level by level *)
+Definition level_same (a b : scope * nat) : Prop := snd b = snd a /\ same_graph (fst a) (fst b).
+Definition stack_same (st st' : stack) : Prop := Forall2 level_same st st'.
+Definition stack_wf (st : stack) : Prop := Forall (fun p => WF (fst p)) st.
+
+Lemma stack_same_refl st : stack_wf st -> stack_same st st.
+Proof.
+  induction 1 as [|p r Hp Hr IH]; constructor; auto. split; auto. apply same_graph_refl; auto.
+Qed.
+
+Lemma same_graph_WF a b : same_graph a b -> WF b.
+Proof. intros (_&_&_&_&W&_). exact W. Qed.
+
+Lemma put_upper_same rest rest1 up1 : stack_same rest rest1 -> upper_cframe (hd_error rest1) up1 ->
+  stack_same rest (put_upper rest1 up1).
+Proof.
+  intros Hs Hu. destruct Hs as [|[u pk] [u1 pk1] r r1 [H1 H2] Hr]; simpl in *.
+  - destruct up1; [contradiction|constructor].
+  - destruct up1 as [[u' pk']|]; [|contradiction]. destruct Hu as [-> C]. constructor; auto.
+    split; auto. simpl in *. eapply same_graph_trans; [exact H2|].
+    apply cframe_same_graph; auto. eapply same_graph_WF; eauto.
+Qed.
+
+Lemma pull_tree_restores fuel parents : forall st lv st' l x, stack_wf st ->
+  pull_tree fuel parents lv st = (st', l, x) -> stack_same st st'.
+Proof.
+  induction st as [|[sc k] rest IH]; intros lv st' l x Hw; simpl.
+  - intros H; inversion H; subst. constructor.
+  - inversion Hw as [|? ? Wsc Wrest]; subst. simpl in Wsc.
+    destruct (match par sc with
+              | PMacro => if parents then pull_tree fuel parents (S lv) rest else (rest, [], Ok)
+              | _ => (rest, [], Ok) end) as [[rest1 l0] x0] eqn:Q.
+    assert (Hr : stack_same rest rest1).
+    { destruct (par sc); try (inversion Q; subst; apply stack_same_refl; auto; fail).
+      destruct parents; [eapply IH; eauto|inversion Q; subst; apply stack_same_refl; auto]. }
+    destruct x0.
+    + destruct (level_pull fuel lv sc k (hd_error rest1)) as [[[sc1 up1] l1] x1] eqn:Lp.
+      intros H; inversion H; subst; clear H.
+      destruct (level_pull_restores _ _ _ _ _ _ _ _ _ Wsc Lp) as [G U].
+      constructor; [split; auto|]. apply put_upper_same; auto.
+    + intros H; inversion H; subst; clear H. constructor; auto. split; auto. apply same_graph_refl; auto.
+Qed.
+
+Lemma pull_restores fuel parents st st' l x : stack_wf st ->
+  pull fuel parents st = (st', l, x) -> stack_same st st'.
+Proof.
+  intros Hw. unfold pull. destruct (pull_tree fuel parents 0 st) as [[st1 l1] x1] eqn:Q.
+  assert (Hs := pull_tree_restores _ _ _ _ _ _ _ Hw Q).
+  destruct x1; [|intros H; inversion H; subst; exact Hs].
+  destruct st1 as [|[sc k] rest]; [intros H; inversion H; subst; exact Hs|].
+  destruct (failed sc k); [intros H; inversion H; subst; exact Hs|].
+  destruct (bad sc k); intros H; inversion H; subst; auto.
+  inversion Hs as [|[a ka] ? r ? [H1 H2] Hr]; subst. constructor; auto. split; auto. simpl in *.
+  eapply same_graph_trans; [exact H2|]. apply cframe_same_graph; [eapply same_graph_WF; eauto|apply cframe_mark_failed].
+Qed.
+
+(* ================================================================== running a linear chain *)
+Fixpoint chained sc (l : list nat) : Prop :=
+  match l with
+  | [] => True
+  | a :: r => match r with
+              | [] => c_ran sc a = []
+              | b :: _ => c_ran sc a = [(b, IRun)] /\ chained sc r
+              end
+  end.
+
+Lemma chained_cframe a b l : cframe a b -> chained a l -> chained b l.
+Proof.
+  intros (_&C2&_). induction l as [|x r IH]; simpl; auto. destruct r as [|y r'].
+  - rewrite C2. auto.
+  - rewrite C2. intros [? ?]; split; auto.
+Qed.
+
+Lemma dfs_chain lv : forall l a fuel sc sc' log x, chained sc (a :: l) ->
+  run_with (emit_dfs fuel lv) lv sc a = (sc', log, x) ->
+  exists p q, a :: l = p ++ q /\ log = map (pair lv) p /\ (x = Ok -> q = []).
+Proof.
+  induction l as [|b l' IH]; intros a fuel sc sc' log x Hc; unfold run_with.
+  - destruct (failed sc a); [intros H; inversion H; subst; exists [], [a]; repeat split; auto; discriminate|].
+    destruct (bad sc a); [intros H; inversion H; subst; exists [a], []; repeat split; auto|].
+    simpl in Hc. destruct fuel as [|f]; simpl.
+    + intros H; inversion H; subst. exists [a], []; repeat split; auto.
+    + rewrite Hc. simpl. intros H; inversion H; subst. exists [a], []; repeat split; auto.
+  - destruct (failed sc a); [intros H; inversion H; subst; exists [], (a :: b :: l'); repeat split; auto; discriminate|].
+    destruct (bad sc a); [intros H; inversion H; subst; exists [a], (b :: l'); repeat split; auto; discriminate|].
+    destruct Hc as [Ha Hc]. destruct fuel as [|f]; simpl.
+    + intros H; inversion H; subst. exists [a], (b :: l'); repeat split; auto; discriminate.
+    + rewrite Ha. simpl.
+      destruct (run_with (emit_dfs f lv) lv sc b) as [[sc2 l2] x2] eqn:Q.
+      destruct (IH _ _ _ _ _ _ Hc Q) as (p & q & Hpq & Hl & Hx).
+      destruct x2; intros H; inversion H; subst; clear H.
+      * exists (a :: p), q. rewrite Hpq. repeat split; auto; try (simpl; rewrite app_nil_r; reflexivity).
+      * exists (a :: p), q. rewrite Hpq. repeat split; auto; discriminate.
+Qed.
+
+Lemma queue_chain lv : forall l a fuel sc e errs sc' log x, chained sc (a :: l) ->
+  queue_loop fuel lv sc [(e, (a, IRun))] errs = (sc', log, x) ->
+  exists p q, a :: l = p ++ q /\ log = map (pair lv) p /\ (x = Ok -> q = []).
+Proof.
+  induction l as [|b l' IH]; intros a fuel sc e errs sc' log x Hc; destruct fuel as [|f]; simpl;
+    try (intros H; inversion H; subst; exists [], (a :: l); repeat split; auto; discriminate).
+  - intros H; inversion H; subst. exists [], [a]; repeat split; auto; discriminate.
+  - unfold run_q. destruct (failed sc a).
+    + destruct f; simpl; intros H; inversion H; subst; exists [], [a]; repeat split; auto; discriminate.
+    + destruct (bad sc a).
+      * destruct f; simpl; intros H; inversion H; subst; exists [a], []; repeat split; auto.
+      * simpl in Hc. rewrite Hc. simpl. destruct f; simpl; intros H; inversion H; subst; exists [a], []; repeat split; auto.
+  - intros H; inversion H; subst. exists [], (a :: b :: l'); repeat split; auto; discriminate.
+  - unfold run_q. destruct (failed sc a).
+    + destruct f; simpl; intros H; inversion H; subst; exists [], (a :: b :: l'); repeat split; auto; discriminate.
+    + destruct (bad sc a).
+      * destruct f; simpl; intros H; inversion H; subst; exists [a], (b :: l'); repeat split; auto; discriminate.
+      * destruct Hc as [Ha Hc]. rewrite Ha. simpl.
+        destruct (queue_loop f lv sc [(a, (b, IRun))] errs) as [[sc3 l3] x3] eqn:Q.
+        destruct (IH _ _ _ _ _ _ _ _ Hc Q) as (p & q & Hpq & Hl & Hx).
+        intros H; inversion H; subst; clear H.
+        exists (a :: p), q. rewrite Hpq. repeat split; auto.
+Qed.
+
+Lemma run_children_chain fuel lv sc first l sc' log x : starting sc = [first] -> chained sc (first :: l) ->
+  run_children fuel lv sc = (sc', log, x) ->
+  exists p q, first :: l = p ++ q /\ log = map (pair lv) p /\ (x = Ok -> q = []).
+Proof.
+  intros Hs Hc. unfold run_children. rewrite Hs. simpl. unfold run_q.
+  destruct (failed sc first); [intros H; inversion H; subst; exists [], (first :: l); repeat split; auto; discriminate|].
+  destruct (bad sc first); [intros H; inversion H; subst; exists [first], l; repeat split; auto; discriminate|].
+  simpl. rewrite app_nil_r. destruct l as [|b l'].
+  - simpl in Hc. rewrite Hc. simpl. destruct fuel; simpl; intros H; inversion H; subst; exists [first], []; repeat split; auto.
+  - destruct Hc as [Ha Hc]. rewrite Ha. simpl.
+    destruct (queue_loop fuel lv sc [(first, (b, IRun))] false) as [[sc2 l2] x2] eqn:Q.
+    destruct (queue_chain _ _ _ _ _ _ _ _ _ _ Hc Q) as (p & q & Hpq & Hl & Hx).
+    intros H; inversion H; subst; clear H. exists (first :: p), q. rewrite Hpq. repeat split; auto.
+Qed.
+
+(* ---- entries written by an emission all belong to that level ---- *)
+Definition at_level (lv : nat) (l : list entry) : Prop := Forall (fun e => fst e = lv) l.
+Definition emit_lv (lv : nat) (emit : scope -> nat -> scope * list entry * res) : Prop :=
+  forall sc k sc' l x, emit sc k = (sc', l, x) -> at_level lv l.
+
+Lemma run_with_lv emit lv : emit_lv lv emit -> emit_lv lv (run_with emit lv).
+Proof.
+  intros He sc r sc' l x. unfold run_with. destruct (failed sc r).
+  - intros H; inversion H; subst; constructor.
+  - destruct (bad sc r).
+    + intros H; inversion H; subst. repeat constructor.
+    + destruct (emit sc r) as [[sc1 l1] x1] eqn:Q. intros H; inversion H; subst.
+      constructor; [reflexivity|]. eapply He; eauto.
+Qed.
+
+Lemma deliver_all_lv runf lv e : emit_lv lv runf ->
+  forall conns sc sc' l x, deliver_all runf e conns sc = (sc', l, x) -> at_level lv l.
+Proof.
+  intros Hr. induction conns as [|[r s] rest IH]; intros sc sc' l x; simpl.
+  - intros H; inversion H; subst; constructor.
+  - destruct (match s with IRun => (sc, true) | IAcc => acc_deliver sc r e end) as [sc1 go].
+    destruct go.
+    + destruct (runf sc1 r) as [[sc2 l2] x2] eqn:Q2. assert (C2 := Hr _ _ _ _ _ Q2). destruct x2.
+      * destruct (deliver_all runf e rest sc2) as [[sc3 l3] x3] eqn:Q3. intros H; inversion H; subst.
+        apply Forall_app. split; auto. eapply IH; eauto.
+      * intros H; inversion H; subst. exact C2.
+    + intros H. eapply IH; eauto.
+Qed.
+
+Lemma emit_dfs_lv fuel lv : emit_lv lv (emit_dfs fuel lv).
+Proof.
+  induction fuel as [|f IH]; intros sc k sc' l x; simpl.
+  - intros H; inversion H; subst; constructor.
+  - intros H. eapply deliver_all_lv; [|exact H]. apply run_with_lv. exact IH.
+Qed.
+
+Lemma emit_dfs_quiet fuel lv sc k sc' l x : c_ran sc k = [] -> emit_dfs fuel lv sc k = (sc', l, x) -> l = [].
+Proof.
+  intros Hq. destruct fuel; simpl; [intros H; inversion H; auto|]. rewrite Hq. simpl.
+  intros H; inversion H; auto.
+Qed.
+
+(* an enclosing macro whose `ran` is connected pushes its downstream siblings: absent here *)
+Definition quiet (sc : scope) (up : upper) : Prop :=
+  match par sc, up with
+  | PMacro, Some (usc, pk) => c_ran usc pk = []
+  | _, _ => True
+  end.
+
+Lemma run_parent_chain fuel lv sc up first l sc' up' log x : starting sc = [first] -> chained sc (first :: l) ->
+  run_parent fuel lv sc up = (sc', up', log, x) ->
+  exists p q casc, first :: l = p ++ q /\ log = map (pair lv) p ++ casc /\ (x = Ok -> q = []) /\
+                   at_level (S lv) casc /\ (quiet sc up -> casc = []).
+Proof.
+  intros Hs Hc. unfold run_parent.
+  destruct (match par sc, up with
+            | PMacro, Some (usc, pk) => failed usc pk | PWf, _ => pfailed sc | _, _ => false end).
+  - intros H; inversion H; subst. exists [], (first :: l), []. repeat split; auto; try constructor. discriminate.
+  - destruct (run_children fuel lv sc) as [[sc1 l1] x1] eqn:Q1.
+    destruct (run_children_chain _ _ _ _ _ _ _ _ Hs Hc Q1) as (p & q & Hpq & Hl & Hx).
+    assert (Base : forall s u, (s, u, l1, x1) = (sc', up', log, x) ->
+       exists p q casc, first :: l = p ++ q /\ log = map (pair lv) p ++ casc /\ (x = Ok -> q = []) /\
+                        at_level (S lv) casc /\ (quiet sc up -> casc = [])).
+    { intros s u H; inversion H; subst. exists p, q, []. rewrite app_nil_r. repeat split; auto. constructor. }
+    destruct x1.
+    + destruct (par sc) eqn:P; [eapply Base|eapply Base|].
+      destruct up as [[usc pk]|]; [|eapply Base].
+      destruct (emit_dfs fuel (S lv) usc pk) as [[usc1 l2] x2] eqn:Q2. intros H; inversion H; subst.
+      exists p, q, l2. repeat split; auto.
+      * eapply emit_dfs_lv; eauto.
+      * unfold quiet. rewrite P. intros Hq. eapply emit_dfs_quiet; eauto.
+    + destruct (par sc); [eapply Base|eapply Base|destruct up as [[usc pk]|]; eapply Base].
+Qed.
+
+(* ---- from the edge characterisation to the exact `ran` lists of the chain ---- *)
+Lemma consec_head_fresh a l x y : ~ In a l -> consec (a :: l) x y -> x = a -> match l with b :: _ => y = b | [] => False end.
+Proof.
+  destruct l as [|b r]; simpl; [tauto|]. intros Hn [[_ ->]|Hc] ->; auto.
+  exfalso. apply Hn. change (consec (b :: r) a y) in Hc. apply consec_In in Hc. tauto.
+Qed.
+
+Lemma chained_of_consec sc : forall l, NoDup l -> (forall v, NoDup (c_ran sc v)) ->
+  (forall v t, In v l -> (In t (c_ran sc v) <-> snd t = IRun /\ consec l v (fst t))) -> chained sc l.
+Proof.
+  induction l as [|a r IH]; intros Hn Hnd H; [exact I|].
+  inversion Hn as [|? ? Ha Hr]; subst.
+  assert (Htail : chained sc r).
+  { apply IH; auto. intros v t Hv. rewrite (H v t (or_intror Hv)).
+    destruct r as [|b r']; [destruct Hv|].
+    change (consec (a :: b :: r') v (fst t)) with ((v = a /\ fst t = b) \/ consec (b :: r') v (fst t)).
+    split; [|tauto]. intros [? [[-> _]|?]]; [contradiction|auto]. }
+  simpl. destruct r as [|b r'].
+  - apply nil_of_no_elements. intros t Ht. apply (H a t (or_introl eq_refl)) in Ht. destruct Ht as [_ []].
+  - split; [|exact Htail]. apply singleton_of_elements; [apply Hnd|].
+    intros [y s]. rewrite (H a (y, s) (or_introl eq_refl)). simpl. split.
+    + intros [-> Hc]. f_equal. exact (consec_head_fresh a (b :: r') a y Ha Hc eq_refl).
+    + intros Q; inversion Q; subst. split; auto.
+Qed.
+
+Lemma consec_snoc_ne l k : ~ In k l -> forall x y, (consec (l ++ [k]) x y /\ y <> k <-> consec l x y).
+Proof.
+  induction l as [|a r IH]; intros Hk x y.
+  - simpl. tauto.
+  - assert (Hk' : ~ In k r) by (intros ?; apply Hk; right; auto).
+    destruct r as [|b r'].
+    + simpl. split; [|tauto]. intros [[[-> ->]|[]] Hne]. congruence.
+    + change (consec ((a :: b :: r') ++ [k]) x y) with ((x = a /\ y = b) \/ consec ((b :: r') ++ [k]) x y).
+      change (consec (a :: b :: r') x y) with ((x = a /\ y = b) \/ consec (b :: r') x y).
+      rewrite <- (IH Hk' x y). split.
+      * intros [[[-> ->]|Hc] Hne]; auto.
+      * intros [[-> ->]|[Hc Hne]]; [|auto]. split; auto. intros ->. apply Hk'. left; auto.
+Qed.
+
+Lemma reach_snoc up k v u : reach up k v -> In u (up v) -> reach up k u.
+Proof.
+  induction 1; intros Hu.
+  - econstructor; [exact Hu|constructor].
+  - econstructor; eauto.
+Qed.
+
+Lemma topo_ext up up' : (forall v, up v = up' v) -> forall l d, topo up d l -> topo up' d l.
+Proof.
+  intros He. induction l as [|v r IH]; simpl; auto. intros d [H1 H2]. split; auto.
+  intros u Hu. apply H1. rewrite He. exact Hu.
+Qed.
+
+Lemma self_dep_false sc D : self_dep sc D = false -> forall v, In v D -> ~ In v (ups sc v).
+Proof.
+  unfold self_dep. intros H v Hv Hin.
+  assert (existsb (fun v0 => memn v0 (ups sc v0)) D = true); [|congruence].
+  apply existsb_exists. exists v. split; auto. apply memn_In. exact Hin.
+Qed.
+
+(* ---- errors of the run phase are never the two refusals ---- *)
+Definition run_err (x : res) : Prop := x <> Err ECyclic /\ x <> Err EExecutor.
+Definition emit_re (emit : scope -> nat -> scope * list entry * res) : Prop :=
+  forall sc k sc' l x, emit sc k = (sc', l, x) -> run_err x.
+Ltac re := split; discriminate.
+
+Lemma run_with_re emit lv : emit_re emit -> emit_re (run_with emit lv).
+Proof.
+  intros He sc r sc' l x. unfold run_with. destruct (failed sc r); [intros H; inversion H; re|].
+  destruct (bad sc r); [intros H; inversion H; re|].
+  destruct (emit sc r) as [[sc1 l1] x1] eqn:Q. intros H; inversion H; subst. eapply He; eauto.
+Qed.
+Lemma deliver_all_re runf e : emit_re runf ->
+  forall conns sc sc' l x, deliver_all runf e conns sc = (sc', l, x) -> run_err x.
+Proof.
+  intros Hr. induction conns as [|[r s] rest IH]; intros sc sc' l x; simpl; [intros H; inversion H; re|].
+  destruct (match s with IRun => (sc, true) | IAcc => acc_deliver sc r e end) as [sc1 go]. destruct go.
+  - destruct (runf sc1 r) as [[sc2 l2] x2] eqn:Q2. assert (C2 := Hr _ _ _ _ _ Q2). destruct x2.
+    + destruct (deliver_all runf e rest sc2) as [[sc3 l3] x3] eqn:Q3. intros H; inversion H; subst. eapply IH; eauto.
+    + intros H; inversion H; subst. exact C2.
+  - intros H. eapply IH; eauto.
+Qed.
+Lemma emit_dfs_re fuel lv : emit_re (emit_dfs fuel lv).
+Proof.
+  induction fuel as [|f IH]; intros sc k sc' l x; simpl; [intros H; inversion H; re|].
+  intros H. eapply deliver_all_re; [|exact H]. apply run_with_re. exact IH.
+Qed.
+Lemma queue_loop_re fuel lv : forall sc q errs sc' l x, queue_loop fuel lv sc q errs = (sc', l, x) -> run_err x.
+Proof.
+  induction fuel as [|f IH]; intros sc q errs sc' l x; destruct q as [|[e [r s]] rest]; simpl;
+    try (intros H; inversion H; subst; destruct errs; re).
+  destruct (match s with IRun => (sc, true) | IAcc => acc_deliver sc r e end) as [sc1 go]. destruct go.
+  - destruct (run_q lv sc1 r) as [[[sc2 l2] q2] x2].
+    destruct (queue_loop f lv sc2 (rest ++ q2) _) as [[sc3 l3] x3] eqn:Q3.
+    intros H; inversion H; subst. eapply IH; eauto.
+  - intros H. eapply IH; eauto.
+Qed.
+Lemma run_q_re lv sc r sc' l q x : run_q lv sc r = (sc', l, q, x) -> run_err x.
+Proof.
+  unfold run_q. destruct (failed sc r); [intros H; inversion H; re|].
+  destruct (bad sc r); intros H; inversion H; re.
+Qed.
+Lemma run_starters_re lv st : forall sc sc' l q x, run_starters lv sc st = (sc', l, q, x) -> run_err x.
+Proof.
+  induction st as [|s rest IH]; intros sc sc' l q x; simpl; [intros H; inversion H; re|].
+  destruct (run_q lv sc s) as [[[sc1 l1] q1] x1] eqn:Q1. assert (C1 := run_q_re _ _ _ _ _ _ _ Q1). destruct x1.
+  - destruct (run_starters lv sc1 rest) as [[[sc2 l2] q2] x2] eqn:Q2. intros H; inversion H; subst. eapply IH; eauto.
+  - intros H; inversion H; subst. exact C1.
+Qed.
+Lemma run_children_re fuel lv sc sc' l x : run_children fuel lv sc = (sc', l, x) -> run_err x.
+Proof.
+  unfold run_children. destruct (run_starters lv sc (starting sc)) as [[[sc1 l1] q1] x1] eqn:Q1.
+  assert (C1 := run_starters_re _ _ _ _ _ _ _ Q1). destruct x1.
+  - destruct (queue_loop fuel lv sc1 q1 false) as [[sc2 l2] x2] eqn:Q2. intros H; inversion H; subst.
+    eapply queue_loop_re; eauto.
+  - intros H; inversion H; subst. exact C1.
+Qed.
+Lemma run_parent_re fuel lv sc up sc' up' l x : run_parent fuel lv sc up = (sc', up', l, x) -> run_err x.
+Proof.
+  unfold run_parent.
+  destruct (match par sc, up with
+            | PMacro, Some (usc, pk) => failed usc pk | PWf, _ => pfailed sc | _, _ => false end);
+    [intros H; inversion H; re|].
+  destruct (run_children fuel lv sc) as [[sc1 l1] x1] eqn:Q1. assert (C1 := run_children_re _ _ _ _ _ _ Q1).
+  destruct x1.
+  - destruct (par sc); [| |destruct up as [[usc pk]|]]; try (intros H; inversion H; subst; re).
+    destruct (emit_dfs fuel (S lv) usc pk) as [[usc1 l2] x2] eqn:Q2. intros H; inversion H; subst.
+    eapply emit_dfs_re; eauto.
+  - destruct (par sc); [| |destruct up as [[usc pk]|]]; intros H; inversion H; subst; exact C1.
+Qed.
+
+Lemma chained_ext a b l : (forall e, c_ran b e = c_ran a e) -> chained a l -> chained b l.
+Proof.
+  intros C2. induction l as [|x r IH]; simpl; auto. destruct r as [|y r'].
+  - rewrite C2. auto.
+  - rewrite C2. intros [? ?]; split; auto.
+Qed.
+
+(* ================================================================== what one level executes *)
+Definition topo_enum (up : nat -> list nat) (k : nat) (order : list nat) : Prop :=
+  NoDup order /\ (forall y, In y order <-> reach up k y) /\ topo up [] order.
+
+Lemma linear_order_enum fuel sc sc2 k D order : closure fuel (ups sc) k = Some D ->
+  (forall i, ups sc2 i = ups sc i) -> linear_order sc2 D = Some order ->
+  topo_enum (ups sc) k order /\ exists l, order = l ++ [k].
+Proof.
+  intros C Hu Lo. destruct (closure_sound _ _ _ _ C) as [HD ND].
+  assert (Po := linear_order_perm _ _ _ Lo).
+  assert (T : topo_enum (ups sc) k order).
+  { split; [eapply Permutation_NoDup; [apply Permutation_sym; exact Po|exact ND]|]. split.
+    - intros y. rewrite <- HD. split; apply Permutation_in; [exact Po|apply Permutation_sym; exact Po].
+    - unfold linear_order in Lo. destruct (self_dep sc2 D); [discriminate|].
+      eapply topo_ext; [exact Hu|]. eapply layers_topo; [exact Lo|].
+      intros v Hv u Huv. left. apply HD. eapply reach_snoc; [apply HD; exact Hv|]. rewrite <- Hu. exact Huv. }
+  split; [exact T|]. destruct T as (T1&T2&T3). eapply topo_target_last; eauto.
+Qed.
+
+Definition level_exec (lv : nat) sc (k : nat) (up : upper) (log : list entry) (x : res) : Prop :=
+  exists order l p q casc,
+    topo_enum (ups sc) k order /\ order = l ++ [k] /\ l = p ++ q /\
+    log = map (pair lv) p ++ casc /\ (x = Ok -> q = []) /\
+    at_level (S lv) casc /\ (quiet sc up -> casc = []) /\ run_err x.
+
+Lemma level_pull_exec fuel lv sc k up sc' up' log x : WF sc ->
+  level_pull fuel lv sc k up = (sc', up', log, x) ->
+  (log = [] /\ (x = Err ECyclic \/ x = Err EExecutor)) \/ level_exec lv sc k up log x.
+Proof.
+  intros W. unfold level_pull.
+  destruct (closure fuel (ups sc) k) as [D|] eqn:C; [|intros H; inversion H; subst; left; auto].
+  destruct (existsb (exe sc) D); [intros H; inversion H; subst; left; auto|].
+  set (sc1 := relabel sc D).
+  assert (W1 : WF sc1) by (eapply WF_tables; [apply tables_set_lbl|apply tables_set_lbl|exact W]).
+  destruct (wrap_disconnect sc1 D) as [sc2 pairs] eqn:Wd.
+  destruct (wrap_disconnect_spec _ _ _ _ W1 Wd) as (W2 & F2 & E2 & P2).
+  destruct F2 as (G1&G2&G3&G4&G5&G6&G7&G8&G9&G10).
+  destruct (linear_order sc2 D) as [order|] eqn:Lo; [|intros H; inversion H; subst; left; auto].
+  destruct (linear_order_enum _ _ _ _ _ _ C G2 Lo) as [T [l Hol]].
+  assert (Po := linear_order_perm _ _ _ Lo).
+  destruct (chain_spec order sc2 W2) as (W3 & F3 & E3).
+  set (sc3 := chain sc2 order) in *.
+  destruct F3 as (K1&K2&K3&K4&K5&K6&K7&K8&K9&K10).
+  destruct (run_upstream fuel lv sc3 k (hd k order) up) as [[[sc4 up4] l4] x4] eqn:Ru.
+  intros H; inversion H; subst sc' up' log x; clear H. right.
+  assert (Hnd : NoDup (l ++ [k])) by (rewrite <- Hol; apply T).
+  assert (Hkl : ~ In k l).
+  { apply NoDup_remove_2 in Hnd. rewrite app_nil_r in Hnd. exact Hnd. }
+  assert (Hpar3 : par sc3 = par sc) by (rewrite K7, G7; reflexivity).
+  unfold run_upstream in Ru. destruct (Nat.eqb (hd k order) k) eqn:Hf.
+  - inversion Ru; subst sc4 up4 l4 x4. exists order, l, [], [], [].
+    assert (l = []).
+    { destruct l as [|a l']; auto. exfalso. apply Nat.eqb_eq in Hf. rewrite Hol in Hf. simpl in Hf.
+      subst a. apply Hkl. left; auto. }
+    subst l. refine (conj T (conj Hol (conj eq_refl (conj eq_refl (conj (fun _ => eq_refl) (conj _ (conj (fun _ => eq_refl) _))))))).
+    + constructor.
+    + split; discriminate.
+  - apply Nat.eqb_neq in Hf.
+    destruct l as [|first l']; [rewrite Hol in Hf; simpl in Hf; congruence|].
+    assert (Hfirst : hd k order = first) by (rewrite Hol; reflexivity). rewrite Hfirst in Ru.
+    destruct (disconnect_run sc3 k) as [sc3' pk] eqn:Dk. simpl fst in Ru.
+    destruct (disconnect_run_spec _ _ _ _ W3 Dk) as (W3' & F3' & E3' & _).
+    destruct F3' as (J1&J2&J3&J4&J5&J6&J7&J8&J9&J10).
+    assert (Hch : chained sc3' (first :: l')).
+    { apply chained_of_consec.
+      - apply NoDup_remove_1 in Hnd. rewrite app_nil_r in Hnd. exact Hnd.
+      - apply (wf_nd_out _ W3').
+      - intros v [r s] Hv. simpl. rewrite <- (wf_sym _ W3').
+        change (In v (conns_in sc3' r s)) with (E sc3' v r s). rewrite E3', E3, E2.
+        rewrite <- (consec_snoc_ne _ _ Hkl v r). rewrite <- Hol.
+        assert (HvD : In v D).
+        { eapply Permutation_in; [exact Po|]. rewrite Hol. apply in_app_iff. left. exact Hv. }
+        tauto. }
+    assert (Hp3' : par sc3' = par sc) by (rewrite J7; exact Hpar3).
+    assert (Fin : forall p q casc, first :: l' = p ++ q -> l4 = map (pair lv) p ++ casc -> (x4 = Ok -> q = []) ->
+                  at_level (S lv) casc -> (quiet sc up -> casc = []) -> run_err x4 -> level_exec lv sc k up l4 x4).
+    { intros p q casc A1 A2 A3 A4 A5 A6. exists order, (first :: l'), p, q, casc.
+      exact (conj T (conj Hol (conj A1 (conj A2 (conj A3 (conj A4 (conj A5 A6))))))). }
+    rewrite Hp3' in Ru. destruct (par sc) eqn:Psc.
+    + destruct (run_dfs fuel lv sc3' first) as [[a b] c] eqn:Q. inversion Ru; subst.
+      assert (R := run_with_re _ lv (emit_dfs_re fuel lv) _ _ _ _ _ Q).
+      destruct (dfs_chain _ _ _ _ _ _ _ _ Hch Q) as (p & q & A1 & A2 & A3).
+      apply (Fin p q []); auto; [rewrite app_nil_r; auto|constructor].
+    + destruct (run_parent fuel lv _ up) as [[[a u] b] c] eqn:Q. inversion Ru; subst.
+      assert (R := run_parent_re _ _ _ _ _ _ _ _ Q).
+      assert (Hch' : chained (set_starting (set_automate sc3' false) [first]) (first :: l')).
+      { eapply chained_ext; [|exact Hch]. reflexivity. }
+      destruct (run_parent_chain fuel lv (set_starting (set_automate sc3' false) [first]) up first l' _ _ _ _ eq_refl Hch' Q) as (p & q & casc & A1 & A2 & A3 & A4 & A5).
+      apply (Fin p q casc); auto. intros _. apply A5. unfold quiet. simpl. rewrite Hp3'. exact I.
+    + assert (R := run_parent_re _ _ _ _ _ _ _ _ Ru).
+      assert (Hch' : chained (set_starting sc3' [first]) (first :: l')).
+      { eapply chained_ext; [|exact Hch]. reflexivity. }
+      destruct (run_parent_chain fuel lv (set_starting sc3' [first]) up first l' _ _ _ _ eq_refl Hch' Ru) as (p & q & casc & A1 & A2 & A3 & A4 & A5).
+      apply (Fin p q casc); auto. intros Hq. apply A5. unfold quiet in *. simpl. rewrite Hp3'. rewrite Psc in Hq. exact Hq.
+Qed.
+
+(* ================================================================== the whole pull *)
+(* what the property wants the data trees of a stack to execute *)
+Fixpoint tree_exec (parents : bool) (lv : nat) (st : stack) (log : list entry) : Prop :=
+  match st with
+  | [] => log = []
+  | (sc, k) :: rest =>
+    exists l0 order l,
+      (match par sc with
+       | PMacro => if parents then tree_exec parents (S lv) rest l0 else l0 = []
+       | _ => l0 = []
+       end) /\
+      topo_enum (ups sc) k order /\ order = l ++ [k] /\ log = l0 ++ map (pair lv) l
+  end.
+
+(* no enclosing composite has anything connected to its `ran` signal *)
+Definition enclosing_quiet (st : stack) : Prop := Forall (fun p => c_ran (fst p) (snd p) = []) (tl st).
+
+Lemma stack_same_quiet rest rest1 : stack_same rest rest1 ->
+  Forall (fun p => c_ran (fst p) (snd p) = []) rest -> Forall (fun p => c_ran (fst p) (snd p) = []) rest1.
+Proof.
+  induction 1 as [|[a ka] [b kb] r r1 [H1 H2] Hr IH]; intros Hq; constructor; inversion Hq; subst; auto.
+  simpl in *. subst kb. destruct H2 as (_&_&_&Hran&_). apply nil_of_no_elements. intros t Ht.
+  apply Hran in Ht. match goal with Hz : c_ran a ka = [] |- _ => rewrite Hz in Ht end. exact Ht.
+Qed.
+
+Lemma pull_tree_exec_partial fuel parents : forall st lv st' log, stack_wf st -> enclosing_quiet st ->
+  pull_tree fuel parents lv st = (st', log, Ok) -> tree_exec parents lv st log.
+Proof.
+  induction st as [|[sc k] rest IH]; intros lv st' log Hw Hq; simpl.
+  - intros H; inversion H; subst. reflexivity.
+  - inversion Hw as [|? ? Wsc Wrest]; subst. simpl in Wsc. unfold enclosing_quiet in Hq. simpl in Hq.
+    destruct (match par sc with
+              | PMacro => if parents then pull_tree fuel parents (S lv) rest else (rest, [], Ok)
+              | _ => (rest, [], Ok) end) as [[rest1 l0] x0] eqn:Q.
+    destruct x0; [|intros H; inversion H].
+    destruct (level_pull fuel lv sc k (hd_error rest1)) as [[[sc1 up1] l1] x1] eqn:Lp.
+    intros H; inversion H; subst; clear H.
+    assert (Hrest : stack_same rest rest1 /\
+                    match par sc with
+                    | PMacro => if parents then tree_exec parents (S lv) rest l0 else l0 = []
+                    | _ => l0 = [] end).
+    { destruct (par sc); try (inversion Q; subst; split; [apply stack_same_refl; auto|reflexivity]).
+      destruct parents; [|inversion Q; subst; split; [apply stack_same_refl; auto|reflexivity]].
+      split; [eapply pull_tree_restores; eauto|]. eapply IH; eauto.
+      unfold enclosing_quiet. destruct rest; simpl; [constructor|]. inversion Hq; auto. }
+    destruct Hrest as [Hs Ht].
+    destruct (level_pull_exec _ _ _ _ _ _ _ _ _ Wsc Lp) as [[_ [?|?]]|Hx]; try discriminate.
+    destruct Hx as (order & l & p & q & casc & T & Ho & Hl & Hlog & Hq0 & _ & Hc & _).
+    specialize (Hq0 eq_refl). subst q. rewrite app_nil_r in Hl. subst p.
+    assert (casc = []).
+    { apply Hc. unfold quiet. destruct (par sc); auto. destruct (hd_error rest1) as [[usc pk]|] eqn:Hh; auto.
+      assert (Hq1 := stack_same_quiet _ _ Hs Hq). destruct rest1 as [|[u p'] r1]; [discriminate|].
+      simpl in Hh. inversion Hh; subst. inversion Hq1; subst. assumption. }
+    subst casc. rewrite app_nil_r in Hlog. subst l1. exists l0, order, l. auto.
+Qed.
+
+Lemma pull_tree_levels fuel parents : forall st lv st' log x, stack_wf st ->
+  pull_tree fuel parents lv st = (st', log, x) -> Forall (fun e => lv <= fst e) log.
+Proof.
+  induction st as [|[sc k] rest IH]; intros lv st' log x Hw; simpl.
+  - intros H; inversion H; subst. constructor.
+  - inversion Hw as [|? ? Wsc Wrest]; subst. simpl in Wsc.
+    destruct (match par sc with
+              | PMacro => if parents then pull_tree fuel parents (S lv) rest else (rest, [], Ok)
+              | _ => (rest, [], Ok) end) as [[rest1 l0] x0] eqn:Q.
+    assert (H0 : Forall (fun e => S lv <= fst e) l0).
+    { destruct (par sc); try (inversion Q; subst; constructor).
+      destruct parents; [eapply IH; eauto|inversion Q; subst; constructor]. }
+    assert (H0' : Forall (fun e => lv <= fst e) l0).
+    { eapply Forall_impl; [|exact H0]. simpl. intros; lia. }
+    destruct x0; [|intros H; inversion H; subst; exact H0'].
+    destruct (level_pull fuel lv sc k (hd_error rest1)) as [[[sc1 up1] l1] x1] eqn:Lp.
+    intros H; inversion H; subst; clear H. apply Forall_app. split; auto.
+    destruct (level_pull_exec _ _ _ _ _ _ _ _ _ Wsc Lp) as [[-> _]|Hx]; [constructor|].
+    destruct Hx as (order & l & p & q & casc & _ & _ & _ & Hlog & _ & Hc & _). subst l1.
+    apply Forall_app. split.
+    + apply Forall_forall. intros e He. apply in_map_iff in He. destruct He as (v & <- & _). simpl. lia.
+    + eapply Forall_impl; [|exact Hc]. simpl. intros; lia.
+Qed.
+
+Definition level0 (log : list entry) : list entry := filter (fun e => Nat.eqb (fst e) 0) log.
+
+Lemma level0_high l : Forall (fun e => 1 <= fst e) l -> level0 l = [].
+Proof.
+  unfold level0. induction 1 as [|e r He Hr IH]; simpl; auto.
+  destruct (Nat.eqb (fst e) 0) eqn:Q; auto. apply Nat.eqb_eq in Q. lia.
+Qed.
+Lemma level0_map l : level0 (map (pair 0) l) = map (pair 0) l.
+Proof. unfold level0. induction l; simpl; auto. f_equal. exact IHl. Qed.
+Lemma level0_app a b : level0 (a ++ b) = level0 a ++ level0 b.
+Proof. unfold level0. apply filter_app. Qed.
+
+(* in the target's own scope exactly the closure runs, in dependency order, target last --
+   whatever enclosing macros push among their own siblings *)
+Lemma pull_target_scope fuel parents sc k rest st' log : stack_wf ((sc, k) :: rest) ->
+  pull fuel parents ((sc, k) :: rest) = (st', log, Ok) ->
+  exists order l, topo_enum (ups sc) k order /\ order = l ++ [k] /\ level0 log = map (pair 0) order.
+Proof.
+  intros Hw. unfold pull. destruct (pull_tree fuel parents 0 ((sc, k) :: rest)) as [[st1 l1] x1] eqn:Q.
+  destruct x1; [|intros H; inversion H].
+  simpl in Q. inversion Hw as [|? ? Wsc Wrest]; subst. simpl in Wsc.
+  destruct (match par sc with
+            | PMacro => if parents then pull_tree fuel parents 1 rest else (rest, [], Ok)
+            | _ => (rest, [], Ok) end) as [[rest1 l0] x0] eqn:Q0.
+  assert (H0 : Forall (fun e => 1 <= fst e) l0).
+  { destruct (par sc); try (inversion Q0; subst; constructor).
+    destruct parents; [eapply pull_tree_levels; eauto|inversion Q0; subst; constructor]. }
+  destruct x0; [|inversion Q].
+  destruct (level_pull fuel 0 sc k (hd_error rest1)) as [[[sc1 up1] l2] x2] eqn:Lp.
+  inversion Q; subst; clear Q.
+  destruct (level_pull_exec _ _ _ _ _ _ _ _ _ Wsc Lp) as [[_ [?|?]]|Hx]; try discriminate.
+  destruct Hx as (order & l & p & q & casc & T & Ho & Hl & Hlog & Hq0 & Hc & _).
+  specialize (Hq0 eq_refl). subst q. rewrite app_nil_r in Hl. subst p.
+  destruct (failed sc1 k); [intros H; inversion H|]. destruct (bad sc1 k); intros H; inversion H; subst.
+  exists (l ++ [k]), l. split; auto. split; auto.
+  assert (Hc' : Forall (fun e : nat * nat => 1 <= fst e) casc).
+  { eapply Forall_impl; [|exact Hc]. simpl. intros a Ha. rewrite Ha. auto. }
+  rewrite !level0_app, (level0_high l0 H0), level0_map, (level0_high casc Hc'). simpl.
+  rewrite app_nil_r, map_app. reflexivity.
+Qed.
+
+Lemma pull_exec_partial fuel parents sc k rest st' log : stack_wf ((sc, k) :: rest) ->
+  enclosing_quiet ((sc, k) :: rest) -> pull fuel parents ((sc, k) :: rest) = (st', log, Ok) ->
+  exists l1, tree_exec parents 0 ((sc, k) :: rest) l1 /\ log = l1 ++ [(0, k)].
+Proof.
+  intros Hw Hq. unfold pull. destruct (pull_tree fuel parents 0 ((sc, k) :: rest)) as [[st1 l1] x1] eqn:Q.
+  destruct x1; [|intros H; inversion H].
+  assert (T := pull_tree_exec_partial _ _ _ _ _ _ Hw Hq Q).
+  assert (Hs := pull_tree_restores _ _ _ _ _ _ _ Hw Q).
+  inversion Hs as [|? [sc1 k1] ? r1 [H1 H2] Hr]; subst.
+  simpl in H1. subst k1. destruct (failed sc1 k); [intros H; inversion H|].
+  destruct (bad sc1 k); intros H; inversion H; subst. exists l1. split; auto.
+Qed.
